@@ -187,6 +187,9 @@ def preflib_categorical_to_profile(instance: CategoricalInstance, tie_breaker: s
     The profile (Numpy matrix) format of the Preflib categorical instance.
   """
   # This is essentially equal to a toi.
+  if not isinstance(instance, CategoricalInstance):
+    raise ValueError("The inputted instance is not a categorical instance.")
+
   arr = []
   for p in instance.preferences:
     preference = np.full(instance.num_alternatives, np.nan)
